@@ -21,6 +21,8 @@ Inductive mismatch :=
 | MResp                    (* response differs from the model's *)
 | MTopics (l : list id) | MSubs (l : list id) | MMsgs (l : list id)
 | MDels (l : list id) | MSnaps (l : list id)     (* rows that differ / are missing / are extra *)
+| MCols (l : list string)  (* which columns differ / "x.row-missing" / "x.row-extra": lets each property
+                              claim only the mismatches that belong to it *)
 | MNote (s : string)       (* an oracle was illegal (see Ops.notes) *)
 | MTime.                   (* a written timestamp lies outside [lo, hi] *)
 
@@ -64,6 +66,40 @@ Section Diff.
        map key (filter (fun r => negb (has_id key (key r) a)) b)).
 End Diff.
 
+Definition col (same : bool) (name : string) : list string := if same then [] else [name].
+Definition del_cols (a b : del) : list string :=
+  col (N.eqb (d_msg a) (d_msg b)) "d.msg" ++ col (N.eqb (d_sub a) (d_sub b)) "d.sub" ++
+  col (Z.eqb (d_published a) (d_published b)) "d.published" ++ col (Z.eqb (d_attempt_at a) (d_attempt_at b)) "d.attempt_at" ++
+  col (Z.eqb (d_attempts a) (d_attempts b)) "d.attempts" ++ col (oz_eqb (d_completed a) (d_completed b)) "d.completed" ++
+  col (Z.eqb (d_expires a) (d_expires b)) "d.expires" ++ col (on_eqb (d_not_before a) (d_not_before b)) "d.not_before" ++
+  col (oz_eqb (d_last a) (d_last b)) "d.last".
+Definition sub_cols (a b : sub) : list string :=
+  col (String.eqb (s_name a) (s_name b)) "s.name" ++ col (N.eqb (s_topic a) (s_topic b)) "s.topic" ++
+  col (oz_eqb (s_deleted a) (s_deleted b)) "s.deleted" ++ col (Z.eqb (s_expires a) (s_expires b)) "s.expires" ++
+  col (Z.eqb (s_ttl a) (s_ttl b)) "s.ttl" ++ col (Z.eqb (s_msg_ttl a) (s_msg_ttl b)) "s.msg_ttl" ++
+  col (Bool.eqb (s_ordered a) (s_ordered b)) "s.ordered" ++ col (os_eqb (s_filter a) (s_filter b)) "s.filter" ++
+  col (oz_eqb (s_minb a) (s_minb b) && oz_eqb (s_maxb a) (s_maxb b)) "s.retry" ++
+  col (oz_eqb (s_max_attempts a) (s_max_attempts b) && on_eqb (s_dl_topic a) (s_dl_topic b)) "s.dead_letter" ++
+  col (Z.eqb (s_delay a) (s_delay b)) "s.delay" ++ col (os_eqb (s_push a) (s_push b)) "s.push" ++
+  col (smap_eqb (s_labels a) (s_labels b)) "s.labels".
+
+Fixpoint dedup (l : list string) : list string :=
+  match l with
+  | [] => []
+  | x :: r => if existsb (String.eqb x) r then dedup r else x :: dedup r
+  end.
+
+Section Cols.
+  Context {R : Type} (key : R -> id) (cols : R -> R -> list string) (missing extra : string).
+  (* [a] = the model's table, [b] = the implementation's *)
+  Definition diff_cols (a b : list R) : list string :=
+    dedup (flat_map (fun r => match find_id key (key r) b with
+                              | Some r' => cols r r'
+                              | None => [missing]
+                              end) a ++
+           flat_map (fun r => if has_id key (key r) a then [] else [extra]) b).
+End Cols.
+
 Definition op_wnows (o : op) : list time :=
   match o with
   | DeleteTopic _ w | CreateSub _ _ w | UpdateSub _ _ w | DeleteSub _ w | ModAck _ _ _ w
@@ -97,7 +133,9 @@ Definition check_step (pre : state) (o : obs) : list mismatch :=
   nonempty MSubs (diff_table s_id sub_eqb (subs m) (subs p)) ++
   nonempty MMsgs (diff_table m_id msg_eqb (msgs m) (msgs p)) ++
   nonempty MDels (diff_table d_id del_eqb (dels m) (dels p)) ++
-  nonempty MSnaps (diff_table n_id snap_eqb (snaps m) (snaps p)).
+  nonempty MSnaps (diff_table n_id snap_eqb (snaps m) (snaps p)) ++
+  nonempty MCols (diff_cols d_id del_cols "d.row-missing" "d.row-extra" (dels m) (dels p) ++
+                  diff_cols s_id sub_cols "s.row-missing" "s.row-extra" (subs m) (subs p)).
 
 (* a history: observed steps from the empty database; the pre-state of a step is the
    observed post-state of the one before. Returns the failing steps only. *)
